@@ -345,6 +345,28 @@ func c11Run(c *Ctx) {
 			}
 		}
 	})
+	// multi-byte keys, one a byte-prefix of another (paths are cut at byte offsets)
+	gmb := newGen(GenP{Keys: []string{"\u00e9", "\u00e9a", "\u4e2d"}, MaxList: 2, MaxKeys: 3, EmptyList: false, EmptyMap: true, ListInList: false, Leaves: []interface{}{"v"}})
+	var mbPaths []string
+	seqs([]string{"\u00e9", "\u00e9a", "\u4e2d", "z"}, 3, func(s []string) { mbPaths = append(mbPaths, strings.Join(s, ".")) })
+	gmb.rootMaps(4, func(t *T) {
+		for _, p := range mbPaths {
+			for _, o := range []opn{{"set", ""}, {"remove", ""}, {"rename", "\u00e9"}, {"rename", "\u00e9a"}, {"rename", "z"}} {
+				if !c.Mine() {
+					continue
+				}
+				c.S.States++
+				c.S.Evaluations++
+				for _, pol := range []int{rt.PolicySorted, rt.PolicyReverse} {
+					rt.OrderPolicy = pol
+					c11Check(c, inst(t, nil).(map[string]interface{}), o.op, p, o.name)
+					c.S.Schedules++
+					c.S.Validated++
+				}
+				rt.OrderPolicy = rt.PolicySorted
+			}
+		}
+	})
 	// values of the named type mxj.Map nested in a Map (a caller may build that): the path functions do not
 	// walk through them, so every operation below one must fail without touching anything
 	typed := []func() map[string]interface{}{
